@@ -5,8 +5,12 @@
   the front end (expired at dispatch → nothing goes below the timeout sink; the deadline event
   is raised when the timer fires) and the multiplexed transport (a request whose deadline event
   has fired is dropped by the send loop; one that was already written gets a Tdiscarded naming
-  its tag).  The serial transport, pool and balancer-gate hops are stated on their own models
-  (Props of C08 / C07 / C05); the assembled stacks are judged by the monitor `E2E.comp 12`.
+  its tag).  The serial transport and pool hops are stated on their own models (Props of C08 / C07); the
+  balancer hop — `LoadBalancerSink.AsyncProcessRequest`: a request that arrives before the open
+  result is complete waits for it, and `_on_open_done` forwards it only if its deadline event is
+  absent or not set — is stated at the end of this file on the balancer model of C05/C06
+  (Model/LBBase.lean over Model/Aperture.lean, component `lbgate`, spec `LB.specGate`); the assembled
+  stacks are judged by the monitor `E2E.comp 12`.
 -/
 import ScalesModel.Adapter.E2E
 import ScalesModel.Adapter.TagPool
@@ -14,6 +18,7 @@ import ScalesModel.Adapter.FrontEnd
 import ScalesModel.Proofs.MuxTimeoutLemmas
 import ScalesModel.Adapter.SerialC12
 import ScalesModel.Props.C07
+import ScalesModel.Proofs.LBGate
 namespace Scales.C12
 
 open Scales.TagPool in
@@ -678,5 +683,80 @@ open SerialSpec in
 theorem C12_serial_model_satisfies_spec (ops : List Serial.Op) (h : Serial.opsOk Serial.St.init [] ops = true) :
     SerialC12.spec () (SerialC12.comp.modelTrace () ops) = .ok :=
   specGo_ok ops {} Serial.St.init [] ⟨by simp, by simp [Serial.St.init]⟩ h
+
+/-! ### balancer hop: the gate in front of the open result
+
+  `LB.Cfg.aperture = false` is the `HeapBalancerSink`, `true` the `ApertureBalancerSink`.  A history is
+  the model's trace for an operation list; `get`/`getd` issue a request without / with a deadline
+  event, `expire k` sets the event of the `k`-th waiting request (its caller has its TimeoutError).
+  `LB.specGateGo` rebuilds the queue of waiting requests from the history and judges the observation
+  in which the open result completed: its results, oldest first, are what became of them. -/
+
+open Scales.LBBase in
+/-- Function level, any subclass: requests whose deadline event is set leave no trace — serving a
+    queue does to the balancer exactly what serving its live requests alone does. -/
+theorem C12_gate_dropped_leave_no_trace {σ ρ : Type} (S : Sub σ ρ) (q : List (Option Bool)) (s : σ) :
+    (flush S q s).1 = (flush S (q.filter live) s).1 ∧
+    (flush S q s).2.filterMap id = (flush S (q.filter live) s).2.filterMap id := by
+  have hlive : ∀ (e : Option Bool) (q : List (Option Bool)) (s : σ), live e = true →
+      flush S (e :: q) s = ((flush S q (S.request s).1).1, some (S.request s).2 :: (flush S q (S.request s).1).2) := by
+    intro e q s h; rw [flush]; simp [h]
+  have hdead : ∀ (e : Option Bool) (q : List (Option Bool)) (s : σ), live e = false →
+      flush S (e :: q) s = ((flush S q s).1, none :: (flush S q s).2) := by
+    intro e q s h; rw [flush]; simp [h]
+  induction q generalizing s with
+  | nil => exact ⟨rfl, rfl⟩
+  | cons e q ih =>
+    by_cases hl : live e = true
+    · rw [List.filter_cons_of_pos hl, hlive e q s hl, hlive e _ s hl]
+      obtain ⟨i1, i2⟩ := ih (S.request s).1
+      refine ⟨i1, ?_⟩
+      show List.filterMap id (some _ :: _) = List.filterMap id (some _ :: _)
+      simp only [List.filterMap_cons, id]
+      exact congrArg _ i2
+    · rw [List.filter_cons_of_neg hl]
+      have hl' : live e = false := by simpa using hl
+      rw [hdead e q s hl']
+      obtain ⟨i1, i2⟩ := ih s
+      refine ⟨i1, ?_⟩
+      show List.filterMap id (none :: _) = _
+      simp only [List.filterMap_cons, id]
+      exact i2
+
+open Scales.LB Scales.LBBase in
+/-- Function level, both balancers: when the open result completes there is one result per waiting
+    request, oldest first; a request whose deadline event is set is dropped, every other one is
+    forwarded (to a member or to the no-members sink), and the forwarded ones receive growing
+    dispatch numbers, i.e. they are forwarded in arrival order. -/
+theorem C12_gate_flush (cfg : Aperture.Cfg) (q : List (Option Bool)) (a : Aperture.AS) :
+    dropOk q ((flush (sub cfg) q a).2.map ResV.ofFlush) = true ∧
+    liveOk q ((flush (sub cfg) q a).2.map ResV.ofFlush) = true ∧
+    increasing (dispatchIds ((flush (sub cfg) q a).2.map ResV.ofFlush)) = true := by
+  obtain ⟨h1, h2, h3, _⟩ := flush_gate cfg q a
+  exact ⟨h1, h2, h3.increasing⟩
+
+open Scales.LB in
+/-- **History level, both balancers: a waiting request whose deadline event was set before the open
+    result completed is never forwarded** — in the observation in which the open result completes
+    its entry is `dropped` (no dispatch to any member, no answer from the balancer), and the
+    balancer keeps no record of it afterwards.  Holds for every configuration and every operation
+    list (`wf` is not even needed). -/
+theorem C12_gate_drops_timed_out (cfg : Aperture.Cfg) (ops : List Scales.LB.Op) (_hwf : Scales.LB.wf cfg ops = true) :
+    specGateDrop cfg (compGate.modelTrace cfg ops) = .ok :=
+  specGate_trace cfg 1 ops (Scales.LB.init cfg) 0 (GInv.init cfg)
+
+open Scales.LB in
+/-- **History level, both balancers: a waiting request whose deadline event is absent or not set is
+    forwarded exactly once, in arrival order** — one result per waiting request, a dispatch for
+    every live one, dispatch numbers growing along the queue. -/
+theorem C12_gate_forwards_live (cfg : Aperture.Cfg) (ops : List Scales.LB.Op) (_hwf : Scales.LB.wf cfg ops = true) :
+    specGateLive cfg (compGate.modelTrace cfg ops) = .ok :=
+  specGate_trace cfg 2 ops (Scales.LB.init cfg) 0 (GInv.init cfg)
+
+open Scales.LB in
+/-- the model satisfies the specification the harness evaluates on the real balancers (component `lbgate`) -/
+theorem C12_gate_model_satisfies_spec (cfg : Aperture.Cfg) (ops : List Scales.LB.Op) (_hwf : Scales.LB.wf cfg ops = true) :
+    specGate cfg (compGate.modelTrace cfg ops) = .ok :=
+  specGate_trace cfg 0 ops (Scales.LB.init cfg) 0 (GInv.init cfg)
 
 end Scales.C12
